@@ -247,6 +247,9 @@ class Gen:
         targets = []
         for x in sorted(self.anc[v] | {v}):
             sx = specs[x]
+            if sx['op'] in ('zip', 'combine_latest') and sx['ups']:
+                targets.append(x)          # a late-connected extra input of a combining node
+                continue
             if sx['op'] in ('map', 'filter', 'unique', 'union', 'accumulate', 'sliding_window', 'partition',
                             'partition_unique') and sx['ups'] and self.kind[sx['ups'][0]] in ('int', 'any'):
                 if sx['op'] == 'map' and sx.get('f') in ('rep',):
